@@ -4,6 +4,7 @@ import (
 	"context"
 	"errors"
 	"sync"
+	"sync/atomic"
 
 	"github.com/buchgr/bazel-remote/v2/cache"
 
@@ -48,7 +49,7 @@ func (c *diskCache) findMissingCasBlobsInternal(ctx context.Context, blobs []*pb
 	const batchSize = 20
 
 	var cancelContextForFailFast context.CancelFunc = nil
-	cancelledDueToFailFast := false
+	var cancelledDueToFailFast atomic.Bool
 
 	if failFast && c.proxy != nil {
 		var cancel context.CancelFunc
@@ -57,7 +58,7 @@ func (c *diskCache) findMissingCasBlobsInternal(ctx context.Context, blobs []*pb
 
 		cancelContextForFailFast = func() {
 			// Indicate that we were canceled so that we can fail fast.
-			cancelledDueToFailFast = true
+			cancelledDueToFailFast.Store(true)
 			cancel()
 		}
 	}
@@ -70,7 +71,7 @@ func (c *diskCache) findMissingCasBlobsInternal(ctx context.Context, blobs []*pb
 	for len(remaining) > 0 {
 		select {
 		case <-ctx.Done():
-			if cancelledDueToFailFast {
+			if cancelledDueToFailFast.Load() {
 				return errMissingBlob
 			}
 			return errRequestCancelled
@@ -113,7 +114,7 @@ func (c *diskCache) findMissingCasBlobsInternal(ctx context.Context, blobs []*pb
 				// so check to see if the context has cancelled.
 				select {
 				case <-ctx.Done():
-					if cancelledDueToFailFast {
+					if cancelledDueToFailFast.Load() {
 						return errMissingBlob
 					}
 					return errRequestCancelled
@@ -144,11 +145,16 @@ func (c *diskCache) findMissingCasBlobsInternal(ctx context.Context, blobs []*pb
 		// Wait for all proxyChecks to finish or a context cancellation.
 		select {
 		case <-ctx.Done():
-			if cancelledDueToFailFast {
+			if cancelledDueToFailFast.Load() {
 				return errMissingBlob
 			}
 			return errRequestCancelled
 		case <-waitCh: // Everything in the waitgroup has finished.
+			if cancelledDueToFailFast.Load() {
+				// A proxy miss cancelled the context as well; select may
+				// pick either ready case, and a miss must not be lost.
+				return errMissingBlob
+			}
 		}
 	}
 
